@@ -817,7 +817,13 @@ func (ev *specEnv) callExpr(e *ast.CallExpr, n *specNode) Val {
 		}
 		bs := body.S
 		if srt == sInt {
-			bs = absorbOffset(bs, bn)
+			var outer []string
+			for _, v := range ev.bound {
+				if sc, ok := v.(Sc); ok {
+					outer = append(outer, sc.T.S)
+				}
+			}
+			bs = absorbOffset(bs, bn, outer)
 		}
 		return boolV(Term{fmt.Sprintf("(%s ((%s %s)) %s)", fname, bn, srt, bs), sBool})
 	case "len":
@@ -939,6 +945,11 @@ func (ev *specEnv) callExpr(e *ast.CallExpr, n *specNode) Val {
 			fail("seen() outside a map-range loop invariant")
 		}
 		return boolV(mkSelect(ev.fr.iters[ev.iter], arg(0).(Sc).T))
+	case "pending":
+		if ev.st.pending.S == "" {
+			return Sc{tNilI, types.Universe.Lookup("error").Type()}
+		}
+		return Sc{ev.st.pending, types.Universe.Lookup("error").Type()}
 	case "ncalls":
 		name := stringLit(e.Args[0])
 		c := 0
@@ -961,7 +972,22 @@ func (ev *specEnv) callExpr(e *ast.CallExpr, n *specNode) Val {
 				}
 			}
 		}
-		fail("callarg(%q,%d,%d): no such call on this path", name, k, j)
+		// no such call on this path: the clause must be guarded by ncalls(); return an unconstrained value
+		return Sc{x.fresh("nocall", sIface), types.NewInterfaceType(nil, nil)}
+	case "callres":
+		name := stringLit(e.Args[0])
+		k := intLitArg(e.Args[1])
+		j := intLitArg(e.Args[2])
+		c := 0
+		for _, l := range ev.st.log {
+			if l.Callee == name {
+				c++
+				if c == k {
+					return l.Res[j]
+				}
+			}
+		}
+		return Sc{x.fresh("nocall", sIface), types.NewInterfaceType(nil, nil)}
 	case "float64":
 		return ev.callExprNamed("float", e, n)
 	}
@@ -1200,7 +1226,7 @@ func litConst(t Term) (constant.Value, bool) {
 // positions: the first index term of the form (+ X v) becomes the variable itself (v := v - X).
 // The quantifier keeps its meaning (the substitution is a bijection on Int) and its triggers
 // become arithmetic-free selects, which E-matching handles reliably.
-func absorbOffset(body, v string) string {
+func absorbOffset(body, v string, outer []string) string {
 	needle := " " + v + ")"
 	for from := 0; ; {
 		i := strings.Index(body[from:], needle)
@@ -1238,7 +1264,15 @@ func absorbOffset(body, v string) string {
 		}
 		X := body[k+3 : j]
 		// X must be a single balanced term not mentioning v
-		if !balanced(X) || strings.Contains(X, v) || X == "" || strings.Contains(X, "!q") {
+		if !balanced(X) || strings.Contains(X, v) || X == "" {
+			continue
+		}
+		// X may mention variables bound outside this quantifier, never ones bound inside its body
+		chk := X
+		for _, o := range outer {
+			chk = strings.ReplaceAll(chk, o, "")
+		}
+		if strings.Contains(chk, "!q") {
 			continue
 		}
 		whole := "(+ " + X + " " + v + ")"
